@@ -21,12 +21,14 @@ enum Fn {
   CPLX_FROM_TNX32_S, CPLX_TO_TNX32_S, R4_MUL_S, R4_ADDMUL_S, R4_FROM_CPLX_S, R4_TO_CPLX_S,
   NSIMPLE,
   M_SMALL = NSIMPLE, M_VMP, M_SVP, M_NORM, M_DFT_IDFT,
+  K_CONV, K_DOT, K_Q120_BBC,
   NFN
 };
 static const char* FNAMES[NFN] = {"reim_fft_simple", "reim_ifft_simple", "reim_fftvec_mul_simple", "reim_fftvec_addmul_simple", "reim_from_znx64_simple", "reim_to_znx64_simple",
                                   "cplx_fft_simple", "cplx_ifft_simple", "cplx_fftvec_mul_simple", "cplx_fftvec_addmul_simple", "cplx_from_znx32_simple", "cplx_from_tnx32_simple",
                                   "cplx_to_tnx32_simple", "reim4_fftvec_mul_simple", "reim4_fftvec_addmul_simple", "reim4_from_cplx_simple", "reim4_to_cplx_simple",
-                                  "znx_small_single_product", "vmp_apply_dft", "svp_apply_dft", "vec_znx_normalize_base2k", "vec_znx_dft+idft"};
+                                  "znx_small_single_product", "vmp_apply_dft", "svp_apply_dft", "vec_znx_normalize_base2k", "vec_znx_dft+idft",
+                                  "reim4_convolution", "reim4_vec_mat_products", "q120_vec_mat1col_product_bbc"};
 
 struct Spec {
   int fn;
@@ -171,6 +173,43 @@ static std::vector<uint8_t> execute(const Spec& s, uint64_t place_seed, int pref
       grab(r, 2 * m * 8);
       break;
     }
+    case K_CONV: {  // windowed convolution: every output coefficient is written, also the ones whose index sum is empty
+      const uint64_t sizea = s.s1 * 2 + (s.nrows & 1), sizeb = s.s2 * 2 + (s.ncols & 1), off = s.p1 % 13, dsz = 1 + (s.dseed % 9);
+      double *a = (double*)P.in(sizea * 64), *b = (double*)P.in(sizeb * 64), *r = (double*)P.out(dsz * 64);
+      dfill(a, sizea * 8, d, 1.0); dfill(b, sizeb * 8, d, 1.0);
+      if (s.mtype) reim4_convolution_ref(r, dsz, off, a, sizea, b, sizeb);
+      else if (dsz >= 2) { reim4_convolution_2coeff_ref(off, r, a, sizea, b, sizeb); for (uint64_t q = 2; q < dsz; ++q) reim4_convolution_1coeff_ref(off + q, r + 8 * q, a, sizea, b, sizeb); }
+      else reim4_convolution_1coeff_ref(off, r, a, sizea, b, sizeb);
+      grab(r, dsz * 64);
+      break;
+    }
+    case K_DOT: {  // reim4 dot products incl. zero rows: the 8 / 16 outputs are always overwritten
+      const uint64_t rows = (s.s1 * 4 + s.s2) % 14;
+      double *u = (double*)P.in(rows * 64), *vv = (double*)P.in(rows * 128), *r = (double*)P.out(128);
+      dfill(u, rows * 8, d, 1.0); dfill(vv, rows * 16, d, 1.0);
+      switch (s.nrows % 4) {
+        case 0: reim4_vec_mat1col_product_ref(rows, r, u, vv); memset(r + 8, 0, 64); break;
+        case 1: reim4_vec_mat1col_product_avx2(rows, r, u, vv); memset(r + 8, 0, 64); break;
+        case 2: reim4_vec_mat2cols_product_ref(rows, r, u, vv); break;
+        default: reim4_vec_mat2cols_product_avx2(rows, r, u, vv);
+      }
+      grab(r, 128);
+      break;
+    }
+    case K_Q120_BBC: {
+      const uint64_t ell = (s.s1 * 4 + s.s2) % 12;
+      uint64_t* x = (uint64_t*)P.in(ell * 32);
+      uint32_t* y = (uint32_t*)P.in(ell * 32);
+      for (uint64_t q = 0; q < 4 * ell; ++q) x[q] = d.next();
+      for (uint64_t q = 0; q < 8 * ell; ++q) y[q] = (uint32_t)d.next();
+      uint64_t* r = (uint64_t*)P.out(32);
+      static q120_mat1col_product_bbc_precomp* pre = q120_new_vec_mat1col_product_bbc_precomp();
+      if (s.mtype) q120_vec_mat1col_product_bbc_avx2(pre, ell, (q120b*)r, (q120b*)x, (q120c*)y);
+      else q120_vec_mat1col_product_bbc_ref(pre, ell, (q120b*)r, (q120b*)x, (q120c*)y);
+      for (int l = 0; l < 4; ++l) r[l] %= PRIMES_VEC[l];  // lazy representatives: compare residues
+      grab(r, 32);
+      break;
+    }
     default: {  // module entry points on shared live modules
       const uint64_t n = 1ull << s.logm;
       MODULE_TYPE mt = (s.mtype && (s.fn == M_NORM || s.fn == M_DFT_IDFT)) ? NTT120 : FFT64;
@@ -214,13 +253,23 @@ static std::vector<uint8_t> execute(const Spec& s, uint64_t place_seed, int pref
       } else {
         int64_t* a = (int64_t*)P.in(s.s1 * n * 8);
         ifill(a, s.s1 * n, d, mt == FFT64 ? bits : 63);
-        uint8_t* dd = P.out(s.s1 * spq::dft_limb_bytes(mt, n));
-        vec_znx_dft(mod, (VEC_ZNX_DFT*)dd, s.s1, a, s.s1, n);
-        uint8_t* g = P.out(s.s2 * spq::big_limb_bytes(mt, n));
-        uint8_t* t = P.scratch(vec_znx_idft_tmp_bytes(mod));
-        vec_znx_idft(mod, (VEC_ZNX_BIG*)g, s.s2, (VEC_ZNX_DFT*)dd, s.s1, t);
-        grab(dd, s.s1 * spq::dft_limb_bytes(mt, n));
-        grab(g, s.s2 * spq::big_limb_bytes(mt, n));
+        if (mt == FFT64 && (s.ncols & 1)) {
+          // in place (res == a_dft): the limbs beyond a_size must be cleared whatever the shared buffer held before
+          const uint64_t limbs = std::max(s.s1, s.s2);
+          uint8_t* x = P.out(limbs * n * 8);
+          vec_znx_dft(mod, (VEC_ZNX_DFT*)x, s.s1, a, s.s1, n);
+          uint8_t* t = P.scratch(vec_znx_idft_tmp_bytes(mod));
+          vec_znx_idft(mod, (VEC_ZNX_BIG*)x, s.s2, (VEC_ZNX_DFT*)x, s.s1, t);
+          grab(x, s.s2 * n * 8);
+        } else {
+          uint8_t* dd = P.out(s.s1 * spq::dft_limb_bytes(mt, n));
+          vec_znx_dft(mod, (VEC_ZNX_DFT*)dd, s.s1, a, s.s1, n);
+          uint8_t* g = P.out(s.s2 * spq::big_limb_bytes(mt, n));
+          uint8_t* t = P.scratch(vec_znx_idft_tmp_bytes(mod));
+          vec_znx_idft(mod, (VEC_ZNX_BIG*)g, s.s2, (VEC_ZNX_DFT*)dd, s.s1, t);
+          grab(dd, s.s1 * spq::dft_limb_bytes(mt, n));
+          grab(g, s.s2 * spq::big_limb_bytes(mt, n));
+        }
       }
     }
   }
